@@ -58,7 +58,13 @@ def replay_model(doc):
 
 def main():
     doc = json.load(open(sys.argv[1]))
-    if doc.get("kind") == "tierB":
+    if doc.get("kind") == "native":
+        from . import native
+
+        res = native.run(doc["sidecars"], "quick")
+        hit = [v for v in res["violations"] if v["contract"] == doc["contract"] and v["kind"] == doc["violation"] and v["clause"] == doc["clause"]]
+        code, msg = (1, f"still fails natively: {hit[0]['detail'][:300]}") if hit else (0, "the contract held natively on the whole workload")
+    elif doc.get("kind") == "tierB":
         from . import drivers
 
         code, msg = drivers.replay(doc)
